@@ -11,7 +11,7 @@ import ast
 import re
 from typing import Dict, List, Optional, Tuple
 
-from ..cfront import CNode, CUnit, expand_calls, strip, text
+from ..cfront import CNode, CUnit, expand_calls, inline_statement_calls, strip, text
 from ..core import AnalysisError, Loc, Report, Source, norm
 from ..heapzone import analyse_heap
 from ..orderings import CELLS, cmp_holds, lex_expected
@@ -121,7 +121,11 @@ def check_c_comparisons(unit: CUnit, rep: Report) -> None:
     for n in unit.body("bubble_down").walk():
         if n.kind == "IfStmt":
             g, c = _split_guard(expand_calls(unit, n.children[0]))
-            sites.append(("bubble_down", c, "child test: prefer the child if it is smaller than the current candidate"))
+            then_ = n.children[1] if len(n.children) > 1 else None
+            stops = then_ is not None and any(x.kind in ("BreakStmt", "ReturnStmt") for x in then_.walk()) \
+                and not any(x.kind == "BinaryOperator" and x.props.get("opcode") == "=" for x in then_.walk())
+            sites.append(("bubble_down", c, "stop test: stop sifting unless a child is strictly smaller than the moving entry" if stops else
+                          "child test: prefer the child if it is smaller than the current candidate"))
     for fname, cond, what in sites:
         loc = Loc(HEAP_C, cond.line, fname)
         try:
@@ -129,6 +133,16 @@ def check_c_comparisons(unit: CUnit, rep: Report) -> None:
         except NotInFragment as e:
             for cell in CELLS:
                 rep.ob("R6.1-c-order", None, loc, f"{fname}:{cond.line} @ q{cell[0]} r{cell[1]}", f"not in fragment: {e}")
+            continue
+        if what.startswith("stop test"):
+            # `if (!(child < moving)) break;` / `if (moving <= child) break;`: the exact complement of the strict order (ties stop)
+            flip = {"<": ">", "=": "=", ">": "<"}
+            comp_a = all(table[cell] == (not lex_expected(cell, "<")) for cell in CELLS)
+            comp_b = all(table[cell] == (not lex_expected((flip[cell[0]], flip[cell[1]]), "<")) for cell in CELLS)
+            for cell in CELLS:
+                rep.ob("R6.1-c-order", True if (comp_a or comp_b) else None, loc,
+                       f"{fname}: stop unless ({sides[0]}) < ({sides[1]}) @ quotient{cell[0]} remainder{cell[1]}",
+                       f"{what}: role of the comparison not recognised")
             continue
         for cell in CELLS:
             want = lex_expected(cell, "<")
@@ -581,19 +595,32 @@ def check_heap_scheduler(src: Source, rep: Report, unit: CUnit) -> None:
     # new heap it must restart that count from what the new heap reports (0 before the first insert, else the last insert's return)
     bytes_attr = None
     RP = Resolver(push)
+
+    def _insert_results(fn_: ast.AST) -> set:
+        """locals that hold the value returned by lib.insert (also through copies, e.g. the parameter of an inlined helper)"""
+        out_ = {t.id for a in ast.walk(fn_) if isinstance(a, ast.Assign) and _lib_calls(a.value, aliases, "insert")
+                for t in a.targets if isinstance(t, ast.Name)}
+        grew = True
+        while grew:
+            grew = False
+            for a in ast.walk(fn_):
+                if isinstance(a, ast.Assign) and isinstance(a.value, ast.Name) and a.value.id in out_:
+                    for t in a.targets:
+                        if isinstance(t, ast.Name) and t.id not in out_:
+                            out_.add(t.id)
+                            grew = True
+        return out_
     for n in ast.walk(push):
         if isinstance(n, ast.Compare) and len(n.ops) == 1:
             sides = [n.left, n.comparators[0]]
             names = {x.id for sd in sides for x in ast.walk(sd) if isinstance(x, ast.Name)}
-            ins_vars = {t.id for a in ast.walk(push) if isinstance(a, ast.Assign) and _lib_calls(a.value, aliases, "insert")
-                        for t in a.targets if isinstance(t, ast.Name)}
+            ins_vars = _insert_results(push)
             attrs_ = [self_attr(RP.res(sd)) for sd in sides if self_attr(RP.res(sd))]
             if names & ins_vars and attrs_:
                 bytes_attr = attrs_[0]
     if bytes_attr is None:
         # however the sizes are compared: the count is the attribute that push_event updates with the value the insert returned
-        ins_vars = {t.id for a in ast.walk(push) if isinstance(a, ast.Assign) and _lib_calls(a.value, aliases, "insert")
-                    for t in a.targets if isinstance(t, ast.Name)}
+        ins_vars = _insert_results(push)
         upd = {self_attr(a.targets[0]) for a in ast.walk(push) if isinstance(a, ast.Assign) and self_attr(a.targets[0])
                and isinstance(a.value, ast.Name) and a.value.id in ins_vars}
         if len(upd) == 1:
@@ -684,17 +711,66 @@ def check_heap_scheduler(src: Source, rep: Report, unit: CUnit) -> None:
         ok = ok and norm(r[0].value).endswith(f"({ps[1]}, {ps[2]})")
         rep.ob("R6.3-extern-callback", ok, Loc(HEAP_PY, ext[0].lineno, "event_valid_callback"), r[0] if r else "extern",
                "the extern callback must forward handler handle and counter to the scheduler's method and return its answer")
-    # C side: root deletes exactly while the callback is true
-    loops = [n for n in unit.body("root").walk() if n.kind == "WhileStmt"]
-    okc = False
-    if len(loops) == 1:
-        c = strip(loops[0].children[0])
-        if c.kind == "BinaryOperator" and c.props.get("opcode") == "&&":
-            right = strip(c.children[1])
-            cbname = unit.params("root")[2]
-            okc = right.kind == "CallExpr" and text(right.children[0]) == cbname
-            args = [text(a) for a in right.children[1:]]
-            okc = okc and len(args) == 3 and args[1].endswith("[1].event_handler") and args[2].endswith("[1].counter")
+    # C side: root deletes exactly while the callback is true.  Recognised shapes of the lazy-deletion loop:
+    #   while (.. && cb(top)) { discard }          while (..) { if (!cb(top)) return/break; discard }
+    #   while (..) { if (cb(top)) { discard } else return/break; }
+    # anything else that still calls the callback is undecided; the callback asked with the wrong polarity or about another slot is a violation
+    rb = inline_statement_calls(unit, unit.body("root"))
+    loops = [n for n in rb.walk() if n.kind in ("WhileStmt", "ForStmt")]
+    cbname = unit.params("root")[2]
+    ptr_inits: Dict[str, str] = {}
+    for d in rb.walk():
+        if d.kind == "VarDecl" and d.children:
+            ptr_inits[d.props.get("name")] = text(d.children[-1])
+
+    def top_field(a: str, field: str) -> bool:
+        a = a.strip("()")
+        if a.endswith(f"[1].{field}"):
+            return True
+        if a.endswith(f"->{field}"):
+            base = a[:-len(field) - 2].strip("()")
+            init = ptr_inits.get(base, "").strip("()")
+            return init.endswith("+ 1") or init.endswith("[1]") and init.startswith("&")
+        return False
+
+    def exits(n: CNode) -> bool:
+        return any(x.kind in ("ReturnStmt", "BreakStmt") for x in n.walk())
+
+    def discards(n: CNode) -> bool:
+        return any(x.kind in ("UnaryOperator",) and x.props.get("opcode") == "--" or
+                   (x.kind == "CompoundAssignOperator" and x.props.get("opcode") == "-=") for x in n.walk())
+    okc: Optional[bool] = None
+    calls = [n for n in rb.walk() if n.kind == "CallExpr" and text(n.children[0]) == cbname]
+    if len(loops) == 1 and len(calls) == 1:
+        call = calls[0]
+        args = [text(a_) for a_ in call.children[1:]]
+        about_top = len(args) == 3 and top_field(args[1], "event_handler") and top_field(args[2], "counter")
+        cond = strip(loops[0].children[0]) if loops[0].kind == "WhileStmt" else None
+        body_ = loops[0].children[-1]
+        shape: Optional[bool] = None
+        if cond is not None and any(x is call for x in cond.walk()):
+            if cond.kind == "BinaryOperator" and cond.props.get("opcode") == "&&":
+                right = strip(cond.children[1])
+                if right is call:
+                    shape = True
+                elif right.kind == "UnaryOperator" and right.props.get("opcode") == "!" and strip(right.children[0]) is call:
+                    shape = False
+        else:
+            for st in (body_.children if body_.kind == "CompoundStmt" else [body_]):
+                if st.kind == "IfStmt" and any(x is call for x in st.children[0].walk()):
+                    c = strip(st.children[0])
+                    then_, else_ = st.children[1], (st.children[2] if len(st.children) > 2 else None)
+                    if c is call:
+                        if discards(then_) and not exits(then_) and else_ is not None and exits(else_):
+                            shape = True
+                        elif exits(then_) and not discards(then_):
+                            shape = False
+                    elif c.kind == "UnaryOperator" and c.props.get("opcode") == "!" and strip(c.children[0]) is call:
+                        if exits(then_) and not discards(then_):
+                            shape = True
+                        elif discards(then_) and not exits(then_):
+                            shape = False
+        okc = None if shape is None else (shape and about_top)
     rep.ob("R6.3-c-root-deletes-iff-callback", okc, Loc(HEAP_C, loops[0].line if loops else 0, "root"),
            text(loops[0].children[0]) if loops else "root",
            "root must discard the top entry exactly while the callback says it was trashed, asking about the top entry's "
@@ -876,8 +952,7 @@ def check_list_scheduler(src: Source, rep: Report) -> None:
         r = [n for n in ast.walk(eq) if isinstance(n, ast.Return)]
         ok = len(r) == 1 and isinstance(r[0].value, ast.Compare) and isinstance(r[0].value.ops[0], (ast.Is, ast.Eq)) \
             and "event_handler" in norm(r[0].value.left)
-    rep.ob("R6.8-list-trash-by-handler", ok, Loc(LIST_PY, el[0].lineno if el else 0, "_Element.__eq__"), "remove by handler identity",
-           "trash_event must remove exactly the element of the trashed handler")
+    ok_by_eq, el_line = ok, (el[0].lineno if el else 0)
     tr = M["trash_event"]
     rem = [n for n in ast.walk(tr) if isinstance(n, ast.Call) and isinstance(n.func, ast.Attribute) and n.func.attr == "remove"]
     h0 = param_names(tr)[0]
@@ -896,7 +971,9 @@ def check_list_scheduler(src: Source, rep: Report) -> None:
                 stops = any(isinstance(x, (ast.Break, ast.Return)) for x in g.body)
                 if hit and deletes and stops and len(at) == 1:
                     ok_rem = True
-                    ok = True      # removal by identity of the handler is explicit here (no reliance on _Element.__eq__)
+                    ok_by_eq = True      # removal by identity of the handler is explicit here (no reliance on _Element.__eq__)
+    rep.ob("R6.8-list-trash-by-handler", ok_by_eq, Loc(LIST_PY, el_line, "_Element.__eq__ / trash_event"), "remove by handler identity",
+           "trash_event must remove exactly the element of the trashed handler")
     rep.ob("R6.8-list-trash-removes", ok_rem,
            Loc(LIST_PY, tr.lineno, "ListScheduler.trash_event"), rem[0] if rem else "trash_event", "trash must remove the element")
 
@@ -904,7 +981,7 @@ def check_list_scheduler(src: Source, rep: Report) -> None:
 def check_delete_events(unit: CUnit, rep: Report) -> None:
     """R6.4c: delete_events removes every entry of the handler: after the gap is filled with the last entry, the same index is
     examined again (the moved-in entry may belong to the handler too); a non-matching index advances by exactly one."""
-    body = unit.body("delete_events")
+    body = inline_statement_calls(unit, unit.body("delete_events"))
     hparam = unit.params("delete_events")[1]
     loops = [n for n in body.walk() if n.kind in ("WhileStmt", "ForStmt")]
     target = None
@@ -922,9 +999,18 @@ def check_delete_events(unit: CUnit, rep: Report) -> None:
     lp, test = target
     cond = strip(test.children[0])
     idx = None
+    pointer_cursor = False
     for n in cond.walk():
         if n.kind == "ArraySubscriptExpr":
             idx = text(n.children[1])
+    if idx is None:
+        # the loop walks a pointer instead of an index: `cursor->event_handler == handler`
+        for n in cond.walk():
+            if n.kind == "MemberExpr" and n.children and strip(n.children[0]).kind == "DeclRefExpr":
+                idx, pointer_cursor = strip(n.children[0]).props.get("ref"), True
+    if idx is None:
+        rep.ob("R6.4-delete-all-entries", None, loc, "removal loop", "cursor of the removal loop not recognised")
+        return
     if lp.kind == "ForStmt":
         parts = list(lp.children)
         lbody = parts[-1]
@@ -985,11 +1071,14 @@ def check_delete_events(unit: CUnit, rep: Report) -> None:
     decs = 0
     if match_branch is not None:
         writes = [n for n in match_branch.walk() if n.kind == "BinaryOperator" and n.props.get("opcode") == "="
-                  and strip(n.children[0]).kind == "ArraySubscriptExpr" and text(strip(n.children[0]).children[1]) == idx
+                  and ((strip(n.children[0]).kind == "ArraySubscriptExpr" and text(strip(n.children[0]).children[1]) == idx) or
+                       (pointer_cursor and text(n.children[0]).replace("(", "").replace(")", "").replace(" ", "") in ("*" + idx, idx + "[0]")))
                   and "length" in text(n.children[1])]
         decs = sum(1 for x in match_branch.walk() if (x.kind == "UnaryOperator" and x.props.get("opcode") == "--" and "length" in text(x.children[0]))
                    or (x.kind == "CompoundAssignOperator" and x.props.get("opcode") == "-=" and "length" in text(x.children[0])
-                       and text(x.children[1]) == "1"))
+                       and text(x.children[1]) == "1")
+                   or (x.kind == "BinaryOperator" and x.props.get("opcode") == "=" and "length" in text(x.children[0])
+                       and text(x.children[1]) == f"({text(x.children[0])} - 1)"))
     rep.ob("R6.4-delete-all-entries", ok and len(writes) == 1 and decs == 1, Loc(HEAP_C, lp.line, "delete_events"), f"removal loop: {sorted(set(detail))}",
            "after an entry of the handler is overwritten by the last heap entry the same index must be examined again (the "
            "moved-in entry can belong to the handler as well), and a non-matching index must advance by one: otherwise a "
@@ -1000,7 +1089,7 @@ def check_delete_events(unit: CUnit, rep: Report) -> None:
     if len(rebuild) == 1:
         parts = list(rebuild[0].children)
         init, cnd, inc2 = parts[0], parts[1], parts[2]
-        okr = ("/ 2" in text(init.children[0].children[-1]) or ">> 1" in text(init.children[0].children[-1])) and ">= 1" in text(cnd) and "--" in text(inc2)
+        okr = ("/ 2" in text(init.children[0].children[-1]) or ">> 1" in text(init.children[0].children[-1])) and (">= 1" in text(cnd) or "> 0" in text(cnd) or "!= 0" in text(cnd) or text(cnd).strip("()").startswith(("1 <=", "0 <", "0 !="))) and "--" in text(inc2)
     rep.ob("R6.4-delete-rebuilds-heap", okr, Loc(HEAP_C, rebuild[0].line if rebuild else body.line, "delete_events"),
            "for (index = length / 2; index >= 1; index--) bubble_down", "after deleting from arbitrary positions every inner node must be "
            "sifted down again (from length/2 down to 1)")
